@@ -71,15 +71,98 @@ theorem analyze_exact {g : Game P M} (hg : GameOK g) (hb : EvalBounded g) {cfg :
       ∃ m rest c, ms = m :: rest ∧ g.apply p m = .ok c ∧ v = -(negamax g (st.depth.toNat - 1) c)) :=
   analyze_exact_nt hg hb hpr hnc hord p hov hdepth hlive s hs
 
+/-- **`AnalyzeAll` lists exactly the first moves that attain the value** (no table, precise options, any move
+order): the value is the negamax value at the reported depth; every listed line starts with a legal move whose child
+has value `-v` one level down (so it attains `v`); and every legal generated move whose child has that value leads to
+the same position as the first move of some listed line. -/
+theorem analyzeAll_exact {g : Game P M} (hg : GameOK g) (hb : EvalBounded g) {cfg : Cfg} (hpr : Precise cfg.opts)
+    {o : Oracle M} (hnc : NoCancel o) (hord : OrderOK o)
+    (p : P) (hov : g.over p = false) (hdepth : 1 ≤ cfg.depth)
+    (hlive : ∀ d : Nat, 1 ≤ d → (d : Int) ≤ cfg.depth → Live g d p)
+    (s : Eng M) (hs : s.hasTable = false) :
+    Sat (analyzeAll g cfg o p s) (fun x =>
+      let lines := x.1.1; let v := x.1.2.1; let st := x.1.2.2
+      v = negamax g st.depth.toNat p ∧
+      (∀ line ∈ lines, ∃ m rest c, line = m :: rest ∧ g.apply p m = .ok c ∧
+        v = -(negamax g (st.depth.toNat - 1) c)) ∧
+      (∀ m ∈ g.allMoves p, ∀ c, g.apply p m = .ok c → v = -(negamax g (st.depth.toNat - 1) c) →
+        ∃ line ∈ lines, ∃ m' rest, line = m' :: rest ∧ g.apply p m' = .ok c)) :=
+  analyzeAll_exact_nt hg hb hpr hnc hord p hov hdepth hlive s hs
+
 /-- the hypotheses of the three theorems are satisfiable together: the heap game `Search.Toy.game`, and the
 model really returns a value there (heap of 5, `Depth` 4: the win is found at depth 3, value `WinBase`,
 and the deepening loop stops there) -/
 example : GameOK Toy.game ∧ EvalBounded Toy.game ∧ Precise Toy.cfg.opts ∧ NoCancel (Oracle.quiet : Oracle Nat) ∧
-    OrderOK (Oracle.quiet : Oracle Nat) ∧ (∀ d p, Live Toy.game d p) :=
-  ⟨Toy.gameOK, Toy.evalBounded, Toy.cfg_precise, Toy.quiet_nc, Toy.quiet_order, Toy.live⟩
+    OrderOK (Oracle.quiet : Oracle Nat) ∧ (∀ d p, Live Toy.game d p) ∧ EvalOK Toy.game ∧ HashInj Toy.game :=
+  ⟨Toy.gameOK, Toy.evalBounded, Toy.cfg_precise, Toy.quiet_nc, Toy.quiet_order, Toy.live, Toy.evalOK, Toy.hashInj⟩
 
 example : (match analyze Toy.game Toy.cfg Oracle.quiet 5 (Eng.new Toy.game Toy.cfg) with
     | .ok ((ms, v, st), _) => some (ms, v, st.depth)
     | .error _ => none) = some ([2, 1, 2], Facts.winBase, 3) := by decide
+
+
+/-! ## with a transposition table: verdicts over histories of calls
+
+`Win g p` / `Loss g p`: some depth-limited negamax value of `p` is above `WinThreshold` / below `-WinThreshold`
+— with an evaluation that is decisive only for finished games (`EvalOK`, C18) this is "the mover has a forced win /
+is lost against best play".  `HashInj g` is the `NoCollision` hypothesis (distinct positions, distinct 64-bit
+hashes); `TableSound g s`: every entry of the table of `s` is a true bound, in the three-valued sense, for every
+position that would find it. -/
+
+/-- **`verdict_sound`**: run any history of `Analyze` calls on one engine — any positions (related, repeated,
+unrelated), any table size from one entry up (or none), every call with its own move order and its own cancellation
+pattern, starting from a new engine — in a precise configuration.  Every reported value above `WinThreshold` is a
+real forced win of the position analysed, every value below `-WinThreshold` a real forced loss.  (The intermediate
+invariant, `analyze_sound`, also covers engines whose table was filled by other means, as long as it is sound.) -/
+theorem verdict_sound {g : Game P M} (hg : GameOK g) (he : EvalOK g) (hinj : HashInj g)
+    {cfg : Cfg} (hpr : Precise cfg.opts) (h : History P M) (hord : ∀ x ∈ h, OrderOK x.2) :
+    Sat (runCalls g cfg h (Eng.new g cfg)) (fun x =>
+      ∀ y ∈ x.1, (y.2 > Facts.winThreshold → Win g y.1) ∧ (y.2 < -Facts.winThreshold → Loss g y.1)) :=
+  (runCalls_sound hg he hinj hpr h (Eng.new g cfg) hord (tableSound_new cfg)).mono (fun _ hx => hx.2)
+
+/-- one `Analyze` on an engine whose table is sound: the table stays sound and the verdict is sound -/
+theorem analyze_sound {g : Game P M} (hg : GameOK g) (he : EvalOK g) (hinj : HashInj g)
+    {cfg : Cfg} (hpr : Precise cfg.opts) {o : Oracle M} (hord : OrderOK o) (p : P) (s : Eng M)
+    (hts : TableSound g s) :
+    Sat (analyze g cfg o p s) (fun x => TableSound g x.2 ∧
+      (x.1.2.1 > Facts.winThreshold → Win g p) ∧ (x.1.2.1 < -Facts.winThreshold → Loss g p)) :=
+  Search.analyze_sound hg he hinj hpr hord p s hts
+
+/-- the completeness half of the table clause — *not proved* with a table: a forced result that exists within
+the reported depth is reported as such -/
+def verdict_complete_statement (g : Game P M) (cfg : Cfg) : Prop :=
+  ∀ (h : History P M) (p : P) (o : Oracle M), (∀ x ∈ h, OrderOK x.2) → OrderOK o → NoCancel o →
+    ∀ rs s r s', runCalls g cfg h (Eng.new g cfg) = .ok (rs, s) → analyze g cfg o p s = .ok (r, s') →
+      (negamax g r.2.2.depth.toNat p > Facts.winThreshold → r.2.1 > Facts.winThreshold) ∧
+      (negamax g r.2.2.depth.toNat p < -Facts.winThreshold → r.2.1 < -Facts.winThreshold)
+
+/-- **`verdict_complete_partial`**: what is proved of completeness — without a table (any engine state): the
+reported value *is* the negamax value at the reported depth (`analyze_exact`), so a forced result within that depth
+is reported.  Missing for the full statement: the `Covers` half of the table invariant (an entry of depth ≥ d with
+a non-decisive upper/exact value excludes a forced win within d; dually), which needs depth bookkeeping through
+`teSuffices` and the replacement rule; the correspondence checks it (verdict ops) on tables from 2 entries up. -/
+theorem verdict_complete_partial {g : Game P M} (hg : GameOK g) (hb : EvalBounded g) {cfg : Cfg}
+    (hpr : Precise cfg.opts) {o : Oracle M} (hnc : NoCancel o) (hord : OrderOK o)
+    (p : P) (hov : g.over p = false) (hdepth : 1 ≤ cfg.depth)
+    (hlive : ∀ d : Nat, 1 ≤ d → (d : Int) ≤ cfg.depth → Live g d p)
+    (s : Eng M) (hs : s.hasTable = false) :
+    Sat (analyze g cfg o p s) (fun x =>
+      (negamax g x.1.2.2.depth.toNat p > Facts.winThreshold → x.1.2.1 > Facts.winThreshold) ∧
+      (negamax g x.1.2.2.depth.toNat p < -Facts.winThreshold → x.1.2.1 < -Facts.winThreshold)) := by
+  refine (analyze_exact_nt hg hb hpr hnc hord p hov hdepth hlive s hs).mono ?_
+  rintro x ⟨_, _, _, _, hv, _⟩
+  rw [hv]
+  exact ⟨id, id⟩
+
+/-- non-vacuity: a two-entry table, the heap game; the history analyses the heap 5 (win), the heap 3 with a search
+cancelled in its 4th leaf (still reported lost: the root's exact table entry from the first call seeds the answer),
+the heap 6 cancelled likewise (nothing known: 0), 6 again (lost) and 7 (win) -/
+example : (match runCalls Toy.game { Toy.cfg with tableEntries := some 2 }
+      [(5, Oracle.quiet), (3, { Oracle.quiet with cancel := fun _ e => decide (4 ≤ e) }),
+       (6, { Oracle.quiet with cancel := fun _ e => decide (4 ≤ e) }), (6, Oracle.quiet), (7, Oracle.quiet)]
+      (Eng.new Toy.game { Toy.cfg with tableEntries := some 2 }) with
+    | .ok (rs, _) => some (rs.map (fun (y : Fin 32 × Int) => (y.1.val, y.2)))
+    | .error _ => none) =
+    some [(5, Facts.winBase), (3, -Facts.winBase), (6, 0), (6, -Facts.winBase), (7, Facts.winBase)] := by decide
 
 end C05
